@@ -113,6 +113,7 @@ class AddCyclicMemoryLayout(RewritePattern):
             ):
                 # normalize accesses to binary list
                 # this list will now have a 1 at the index of the dimension that is accessed
+                access_strides = accesses
                 accesses = tuple(0 if x == 0 else 1 for x in accesses)
 
                 if 1 not in accesses:
@@ -136,6 +137,11 @@ class AddCyclicMemoryLayout(RewritePattern):
 
                 # can we further tile the layout according to the remaining size?
                 to_tile = self.tiled_layout
+
+                # a tile of this bound only holds the elements this loop visits if the loop steps through
+                # the dimension with a stride equal to the size of the tiles below it
+                if to_tile and access_strides[accessed_dim] != existing_bound:
+                    to_tile = False
 
                 if to_tile:
                     # only apply tiling if entire size is nicely divisible by the tile size for now
